@@ -341,6 +341,8 @@ def mutate(v, rng):
         if m == "empty":
             return "array-empty", replace_at(v, p, lambda a: [])
         return "array-to-scalar", replace_at(v, p, lambda a: rng.choice([None, 0, "", Obj()]))
+    if not leaves:
+        return "scalar", rng.choice(SCALARS)
     p, x = rng.choice(leaves)
     if isinstance(x, str) and rng.random() < 0.5:
         alt = rng.choice([Obj([[x, None]]), Obj([[x, Obj()]]), Obj([[x, 0]]), x.lower(), x + "2", "Clsag", "Gen"])
